@@ -559,5 +559,6 @@ func Scenarios() []vrt.Scenario {
 	}
 	out = append(out, mountScenarios()...)
 	out = append(out, matrixScenarios()...)
+	out = append(out, grpcScenarios()...)
 	return out
 }
